@@ -44,7 +44,8 @@ pub fn real_lang(game: Game, language: LanguageKey) -> RealLang {
         if i.starts_with("CondJmp(op=\"==\"; type=\"int\")") || i.starts_with("DedicatedCmp(type=\"int\")") { l.cond_int = true; }
     }
     for (r, ty) in &t.reg_types { if ty == "$" { l.int_regs.push(*r); } else if ty == "%" { l.float_regs.push(*r); } }
-    l.has_difficulty = language == LanguageKey::Ecl;
+    // (timeline instructions carry a difficulty byte from TH08 on)
+    l.has_difficulty = language == LanguageKey::Ecl || (language == LanguageKey::Timeline && game >= Game::Th08);
     l.eosd_regs = language == LanguageKey::Ecl && game == Game::Th06;
     l
 }
